@@ -196,22 +196,24 @@ Lemma inv_initialize : forall tbl ae w s, Inv tbl s -> Inv tbl (initialize tbl a
 Proof.
   intros tbl ae w s I. unfold initialize. destruct (qlib s) eqn:Q; [exact I|].
   destruct (I_off _ _ I Q) as (Hr & Ht & Hp).
-  set (s0 := mkRt true [] [] [] (core_id tbl :: ledger s) (pred w) (proxies s) (created s) (dirty s)
-                  (if ae then S (atexits s) else match atexits s with 0 => 1 | S _ => atexits s end) (fault s) []).
+  cbv zeta.
+  match goal with |- Inv tbl (fold_left _ _ ?x) => set (s0 := x) end.
+  assert (Hs0 : qlib s0 = true /\ regs s0 = [] /\ ledger s0 = core_id tbl :: ledger s /\ created s0 = created s) by (unfold s0; simpl; auto).
+  destruct Hs0 as (Q0 & R0 & L0 & C0).
   assert (Hnd : NoDup (init_ids tbl)) by (unfold init_ids; apply NoDup_filter, seq_NoDup).
   destruct (fold_bring_up tbl (init_ids tbl) s0 Hnd) as (a & b & c & d & e & f & g & h & N & Rg & L1 & L2).
-  - intros i _ H. exact H.
-  - constructor.
+  - intros i _ H. rewrite R0 in H. exact H.
+  - rewrite R0. constructor.
   - intros i H. apply in_init_ids. exact H.
   - cbv zeta in *. constructor.
-    + rewrite a. simpl. discriminate.
+    + rewrite a, Q0. discriminate.
     + exact N.
-    + intros i H. apply Rg in H. destruct H as [[]|(Hin & r & E & R)].
+    + intros i H. apply Rg in H. rewrite R0 in H. destruct H as [[]|(Hin & r & E & R)].
       apply in_init_ids in Hin. destruct Hin as (r' & E' & Lz). assert (r' = r) by congruence. subst.
       exists r. repeat split; auto. congruence.
-    + intros i H. rewrite a. simpl. apply L1 in H. destruct H as [[<-|H]|H].
+    + intros i H. rewrite a, Q0. apply L1 in H. rewrite L0 in H. destruct H as [[<-|H]|H].
       * left. auto.
-      * rewrite Hr in *. destruct (I_ledger _ _ I i H) as [[_ C]|[C|C]]; [congruence|rewrite Hr in C; destruct C|auto].
+      * destruct (I_ledger _ _ I i H) as [[_ C]|[C|C]]; [congruence|rewrite Hr in C; destruct C|auto].
       * apply in_init_ids in H. destruct H as (r & E & Lz). destruct (r_registers r) eqn:R.
         -- right; left. apply Rg. right. split; [apply in_init_ids; eauto|exists r; auto].
         -- right; right. exists r. auto.
